@@ -113,6 +113,21 @@ def b_macro_params(ch):
     return st
 
 
+def b_facet_plain(ch):
+    """facet suffix on a surface that is not a macrobody (only .1 could make sense; MCNP has no such form)"""
+    # (one-sheet cones are left out: the converter represents them by two TRIPOLI-4 surfaces and accepts '.2';
+    # a facet suffix on a non-macrobody is not one of the fault classes the property lists)
+    mn = ch.choose('mn', ['px', 'so', 'cz', 'kz', 'tz', 'gq'], free=True)
+    k = ch.choose('facet', [2, 0, 3, 9], free=True)
+    sign = ch.choose('sign', ['-', ''], free=True)
+    key = 'kz' if mn == 'kz1' else mn
+    p = list(SURF_OK[key]) + ([1] if mn == 'kz1' else [])
+    st = one_surface('%s %s' % (key, nums(p)), '%s1.%d' % (sign, k))
+    st.fault = 'facet-on-plain-surface'
+    st.site = '%s.%d' % (mn, k)
+    return st
+
+
 def b_unknown(ch):
     mn = ch.choose('mn', ['qx', 'pw', 'c/w', 'tor', 'rppp', 'boxx', 'k/', 'xx'], free=True)
     st = one_surface('%s 1 2 3' % mn)
@@ -284,6 +299,7 @@ def scenarios(tier):
         Scn('surface-params', b_surface_params, None, None, 'every elementary mnemonic, one too few / one too many'),
         Scn('macro-params', b_macro_params, None, None, 'every macrobody: parameter counts and facet indices'),
         Scn('unknown-mnemonic', b_unknown, None, None, ''),
+        Scn('facet-plain', b_facet_plain, None, None, 'facet index other than 1 on an elementary surface'),
         Scn('m=-1', b_transform, None, None, 'TR / TRCL / FILL with m=-1 at every site'),
         Scn('lattice', b_lattice, None, None, 'missing option, wrong cell, wrong dimensionality, array length'),
         Scn('lattice-arg', b_lattice_arg, None, None, 'malformed --lattice strings'),
